@@ -273,7 +273,7 @@ theorem codeOk_of (md5 : List Nat → List Nat) (pw : List Nat) (p : LanPacket) 
 
 theorem handle_activate (md5 : List Nat → List Nat) (b : BmcCfg) (st : BmcState) (p : LanPacket) (rq : IpmiReq)
     (a out : Nat) (hph : st.phase = .challenged a) (hnf : rq.netfn = 6) (hcmd : rq.cmd = 58)
-    (hpa : p.auth = a) (hps : p.sid = b.tempSid) (hcode : codeOk md5 b.pw p = true)
+    (hpa : p.auth = a) (hps : p.sid = b.tempSid) (hpq : p.seq = 0) (hcode : codeOk md5 b.pw p = true)
     (hdata : rq.data = [a, b.priv] ++ b.challenge ++ leBytes 4 out) (ha16 : a % 16 = a)
     (hp : b.priv % 16 = b.priv) (hch : b.challenge.length = 16) (hout : out ≠ 0) (hlt : out < 4294967296) :
     handle md5 b st p rq = ({ st with phase := .active a none, outSeq := nextSeq out },
@@ -285,18 +285,24 @@ theorem handle_activate (md5 : List Nat → List Nat) (b : BmcCfg) (st : BmcStat
     exact List.take_of_length_le (by simp [hch])
   have hdr : List.drop 16 (b.challenge ++ leBytes 4 out) = leBytes 4 out := by
     rw [← hch]; exact List.drop_left
-  simp [handle, hph, hnf, hcmd, hpa, hps, hcode, hdata, Spec.BmcSession.netfnApp, Spec.BmcSession.cmdActivate,
+  simp [handle, hph, hnf, hcmd, hpa, hps, hpq, hcode, hdata, Spec.BmcSession.netfnApp, Spec.BmcSession.cmdActivate,
     hch, ha16, hp, htk, hdr, hv, hout]
 
 /-- the client between Get Session Challenge and the activation: session object attached, under
-the temporary session id, with the chosen authentication type -/
+the temporary session id, with the chosen authentication type, and with nothing of an earlier
+session in it (not activated, null sequence number) -/
 structure Activating (b : BmcCfg) (cfg : Cfg) (a q : Nat) (c : Client) : Prop where
   attached : c.attached = true
   auth : c.s.auth = a
   sid : c.s.sid = b.tempSid
   pw : c.s.pw = cfg.pw
-  seqLt : c.s.seq < 4294967296
+  seq0 : c.s.seq = 0
+  inact : c.s.activated = false
   rqSeq : c.rqSeq = q
+
+theorem Activating.carried {b : BmcCfg} {cfg : Cfg} {a q : Nat} {c : Client} (h : Activating b cfg a q c) :
+    carriedSeq c.s = 0 := by
+  simp [carriedSeq, h.inact, h.seq0]
 
 /-- Activate Session: sent under the temporary session id with the chosen authentication type,
 echoes the challenge, asks for the configured privilege level; the BMC grants the session -/
@@ -306,7 +312,7 @@ theorem bmc_activate (md5 : List Nat → List Nat) (hmd5 : ∀ x, (md5 x).length
     (hc : Activating b cfg a q c) :
     ∃ d r c', packStep md5 c (ipmbEncode h ([a % 16, cfg.priv % 16] ++ b.challenge ++ leBytes 4 cfg.outSeq)) =
         (c', .ok d) ∧ Activating b cfg a q c' ∧
-      (∃ p, parseLan d = some p ∧ p.auth = a ∧ p.sid = b.tempSid ∧ codeOk md5 cfg.pw p = true) ∧
+      (∃ p, parseLan d = some p ∧ p.auth = a ∧ p.sid = b.tempSid ∧ p.seq = 0 ∧ codeOk md5 cfg.pw p = true) ∧
       Carries d 58 ([a, cfg.priv] ++ b.challenge ++ leBytes 4 cfg.outSeq) ∧
       step md5 b st d = ({ st with phase := .active a none, outSeq := nextSeq cfg.outSeq }, .reply r) ∧
       stepLost md5 b st d = (st, .reply r) ∧
@@ -316,7 +322,7 @@ theorem bmc_activate (md5 : List Nat → List Nat) (hmd5 : ∀ x, (md5 x).length
   rw [ha16, hp16]
   obtain ⟨d, code, h1, h2, h3⟩ := pack_attached md5 hmd5 c
     (ipmbEncode h ([a, cfg.priv] ++ b.challenge ++ leBytes 4 cfg.outSeq)) hc.attached (by rw [hc.auth]; exact ha)
-    (by rw [hc.sid]; exact conf.tempSid) hc.seqLt (by rw [hc.pw]; exact conf.pwLen)
+    (by rw [hc.sid]; exact conf.tempSid) (by rw [hc.seq0]; decide) (by rw [hc.pw]; exact conf.pwLen)
     (by simp [ipmbEncode_length, conf.chalLen])
   have hcode := codeOk_of md5 cfg.pw ⟨6, 0, 255, 7, c.s.auth, carriedSeq c.s, c.s.sid, code,
     (ipmbEncode h ([a, cfg.priv] ++ b.challenge ++ leBytes 4 cfg.outSeq)).length,
@@ -327,10 +333,10 @@ theorem bmc_activate (md5 : List Nat → List Nat) (hmd5 : ∀ x, (md5 x).length
         (ipmiRsp (reqOf h ([a, cfg.priv] ++ b.challenge ++ leBytes 4 cfg.outSeq)) 0
           ([a] ++ leBytes 4 b.sid ++ leBytes 4 b.inSeq0 ++ [b.priv])))) := by
     rw [step_client md5 b st h 58 _ d _ hh (by simp [hph]) (by simp [hph]) h3 rfl rfl rfl rfl]
-    exact handle_activate md5 b st _ _ a cfg.outSeq hph hh.netfn hh.cmd hc.auth hc.sid (by rw [conf.pw]; exact hcode)
+    exact handle_activate md5 b st _ _ a cfg.outSeq hph hh.netfn hh.cmd hc.auth hc.sid hc.carried (by rw [conf.pw]; exact hcode)
       (by simp [reqOf, conf.priv]) ha16 (by rw [conf.priv]; exact hp16) conf.chalLen conf.outSeqPos conf.outSeqLt
-  refine ⟨d, _, _, h1, ⟨hc.attached, hc.auth, hc.sid, hc.pw, carriedSeq_lt _ hc.seqLt, hc.rqSeq⟩,
-    ⟨_, h3, hc.auth, hc.sid, hcode⟩, carries_of d _ h 58 _ hh h3 rfl, hstep, ?_, ?_⟩
+  refine ⟨d, _, _, h1, ⟨hc.attached, hc.auth, hc.sid, hc.pw, hc.carried, hc.inact, hc.rqSeq⟩,
+    ⟨_, h3, hc.auth, hc.sid, hc.carried, hcode⟩, carries_of d _ h 58 _ hh h3 rfl, hstep, ?_, ?_⟩
   · exact stepLost_before md5 b st _ d _ hstep (by simp [hph])
   · exact rxStep_reply md5 hmd5 cfg _ _ a b.pw b.sid cfg.outSeq 0 _ ha (by rw [conf.pw]; exact conf.pwLen)
       conf.sid conf.outSeqLt hh.netfn (by simp [hh.rsLun]) (by simp [hh.rqLun]) (by simp [hh.cmd, cmdSendMessage])
